@@ -283,3 +283,37 @@ impl Interpreter {
         self.rng = Rng::new(seed);
     }
 }
+
+#[cfg(feature = "verif-hooks")]
+impl Interpreter {
+    /// Read-only view of the runtime state.
+    pub fn verif_snapshot(&self) -> crate::verif_hooks::Snapshot {
+        let (frames, loops, functions, has_breakpoint, has_data_cursor) =
+            self.program.verif_snapshot();
+        crate::verif_hooks::Snapshot {
+            frames,
+            loops,
+            functions,
+            has_breakpoint,
+            has_data_cursor,
+            variables: self.variables.verif_entries(),
+            arrays: self.arrays.verif_entries(),
+            pending_input: self.input.is_some(),
+        }
+    }
+
+    /// Total number of token-cursor reads performed so far.
+    pub fn verif_token_reads(&self) -> u64 {
+        self.program.verif_token_reads.get()
+    }
+
+    /// Number of tokens stored for the given numbered line, if it exists.
+    pub fn verif_line_token_count(&self, line_number: u64) -> Option<usize> {
+        self.program.verif_line_len(line_number)
+    }
+
+    /// The line number execution is currently located at, if any.
+    pub fn verif_current_line(&self) -> Option<u64> {
+        self.program.get_line_number()
+    }
+}
